@@ -6,7 +6,7 @@ from checks.c02_server_results import check_outcomes, shrink as shrink2
 ID = 'C07'
 LEVEL = 'exploration'
 NEEDS = ('threads', 'aio')
-QUICK = dict(runs=6000, wall=85)
+QUICK = dict(runs=12000, wall=85)
 THOROUGH = dict(runs=400000, wall=1500)
 RULE = ('scenario = Server/AsyncServer over a thread servlet tree; 2-4 concurrent callers whose deadlines are drawn at the (known, virtual) '
         'service time x {0.5..1.5} and +-1us so that expiry races the gather thread check-and-set; streams closed early with requests '
@@ -44,7 +44,7 @@ def gen(rng, tier):
             else:
                 ops.append({'op': 'sleep', 'd': rng.choice([0.001, 0.01])})
         callers.append({'ops': ops})
-    sc = {'tree': tree, 'capacity': rng.choice([1, 2, 3, 4, 8]), 'async': is_async, 'callers': callers,
+    sc = {'tree': tree, 'capacity': rng.choice([1, 1, 1, 2, 3, 4, 8]), 'async': is_async, 'callers': callers,
           'post': [next(nxt) for _ in range(rng.choice([1, 2, 3]))]}
     cfg = swarm(rng, racy=0.6, line=0.4, max_time=500.0, max_steps=600_000)
     if cfg['time_mode'] == 'racy':
